@@ -1161,13 +1161,15 @@ def _rs_shift_irregular(x, y):
 
 def _region(it, backend=None):
     """The listed finding (or None) whose region — a predicate on the INPUT — contains this pair of instants:
-       same-tzinfo-wall-order    both values carry the same zone and their wall-clock order is not the order of the instants (C05);
+       same-tzinfo-wall-order    both values carry the same zone and CPython's wall-clock comparison of them (fold ignored: `start > end` in
+                                 Interval, `d1 == d2` / `d1 > d2` in precise_diff) is not the comparison of the instants — the wall order is
+                                 reversed, or the two are the two occurrences of ONE wall time and compare equal (C05);
        rs-cross-zone-shift       compiled backend only (backend None: either), see _rs_shift_irregular (C06);
        interval-init-drops-fold  (REPAIRED, status fixed: a failure classified here is reported as a VIOLATION) one of them is the second
                                  occurrence of a repeated wall time — Interval.__init__ used to rebuild its natives without fold=.
     The two listed findings come first: inside their regions a failure is theirs whichever occurrence the endpoints are."""
     x, y = _operands(it)
-    if _tz_name(x["zone"]) == _tz_name(y["zone"]) and (x["f"] > y["f"]) != (x["t"] > y["t"]):
+    if _tz_name(x["zone"]) == _tz_name(y["zone"]) and ((x["f"] > y["f"]) != (x["t"] > y["t"]) or (x["f"] == y["f"]) != (x["t"] == y["t"])):
         return "same-tzinfo-wall-order"
     if backend in (None, "rs") and _rs_shift_irregular(x, y):
         return "rs-cross-zone-shift"
